@@ -227,6 +227,14 @@ void heap_reset_run(const HeapConfig &cfg) {
   g_steps = 0;
 }
 
+void heap_set_knobs(int knobs, int cache_skip, int selfcheck, int realloc_mode, int sink) {
+  g_cfg.knobs = knobs;
+  g_cfg.cache_skip = cache_skip;
+  g_cfg.selfcheck = selfcheck;
+  g_cfg.realloc_mode = realloc_mode;
+  g_cfg.sink = sink;
+}
+
 void heap_begin_op(Backend b, int op_index, const OpFault &f) {
   ensure();
   g_backend = b;
